@@ -91,6 +91,8 @@ def s_tensordot(ch, T):
     opts = _cached(("tensordot", T.quick), options)
     if T.quick:
         opts = [o for i, o in enumerate(opts) if max(len(o[0]), len(o[1])) <= 2 or i % 5 == 0]
+        if T.cplx:
+            opts = opts[::3]        # the complex tier repeats every option for three operand patterns
     a, b, ax = ch.choose("shapes_axes", opts)
     style = ch.choose("style", ["pos", "kw"] if ax is not None else ["pos"])
     expr = "np.tensordot(x, y)" if ax is None else ("np.tensordot(x, y, %s%r)" % ("axes=" if style == "kw" else "", ax))
@@ -135,6 +137,8 @@ EINSUMS = [
     # an operand that lacks TWO OR MORE of the broadcast ("...") dimensions, ellipsis trailing / leading / in the middle
     ("i...,i...->...", [(3,), (3, 2, 2)]), ("ij...,jk...->ik...", [(2, 3), (3, 2, 2, 3)]), ("...i,...i->...", [(3,), (2, 2, 3)]),
     ("i...j,j->i...", [(2, 3), (3,)]), ("i...j,ij->i...", [(2, 2, 3, 3), (2, 3)]), ("...,...->...", [(), (2, 3)]),
+    # a LABELLED size-1 dimension that broadcasts against a larger dimension carrying the same label
+    ("ij,ij->ij", [(1, 3), (2, 3)]), ("ij,ij->ij", [(2, 3), (2, 1)]), ("ij,jk->ik", [(2, 1), (3, 2)]), ("i,i->i", [(1,), (3,)]), ("ij,ij->", [(1, 1), (2, 3)]),
 ]
 
 
@@ -170,6 +174,13 @@ def s_einsum(ch, T):
         if out is not None:
             parts.append(repr(out).replace("Ellipsis", "..."))
         expr = "np.einsum(%s)" % ", ".join(parts)
-    return Case("einsum", expr, ops, dict(convention=conv, ellipsis="..." in subs, explicit_out="->" in subs,
+    labels = {}
+    s1b = False
+    for sub, shp in zip(subs.split("->")[0].replace("...", "").split(","), shapes_):
+        for c, d in zip(sub, shp[-len(sub):] if sub else ()):
+            if c in labels and labels[c] != d and 1 in (labels[c], d):
+                s1b = True
+            labels[c] = max(labels.get(c, d), d)
+    return Case("einsum", expr, ops, dict(convention=conv, ellipsis="..." in subs, explicit_out="->" in subs, size1_label_broadcast=s1b,
                                           nops=len(shapes_), repeated=any(len(set(s)) < len(s) for s in subs.split("->")[0].replace("...", "").split(","))),
                 family="K")
